@@ -59,7 +59,8 @@ def fixed_specs(tier, ctx):
         opl.append({"op": "board", "params": dict(base, max_reward=m)})
     # range soak: millions of tiles at the smallest maximum rewards (absolute check only, no reference call)
     n_boards = 3000 if tier == "quick" else 12000
-    soak = [{"op": "board_range", "params": dict(base, seed=50000 + i, width=40, length=40, lt=0.3,
+    soak = [{"op": "board_range", "params": dict(base, seed=50000 + i, width=40, length=40,
+                                                 lt=(0.3, 0.004, 0.996, 0.125, 0.0349, 0.9651, 0.3, 0.5049)[i % 8],
                                                  max_reward=(1, 1, 1, 2, 3)[i % 5], force_down=bool(i % 2))}
             for i in range(n_boards)]
     # long quiet stretches: probe boards, one 1x1 board drawn about T times in the same process, the probes again
@@ -300,6 +301,8 @@ def execute(spec, w, ctx):
                 cb = check_board(p, out["value"])
                 if cb is not None:
                     v = viol("I15.1", i_op, "gen_rnd_board(%s): %s" % (_pp(p), cb[1]), cb[0])
+                elif isinstance(out["value"], tuple) and len(out["value"]) == 3:
+                    agg.append([p["seed"], p["lt"], p["width"] * p["length"], sum(sum(r_) for r_ in out["value"][2])])
                 w.probe("tiles-range-checked", p["width"] * p["length"])
         elif kind == "board":
             out = ops.board(w, p, common.env_cfg(op))
@@ -431,8 +434,15 @@ def _stats(recs):
         for seed, lt, n, loose in (r.get("agg") or []):
             by_seed.setdefault(seed, (lt, n, loose))
     classes = {"low(<0.2)": [0.0, 0.0, 0, 0], "mid": [0.0, 0.0, 0, 0], "high(>0.8)": [0.0, 0.0, 0, 0]}
+    per_lt = {}
+    for seed, (lt, n, loose) in by_seed.items():
+        per_lt[lt] = per_lt.get(lt, 0) + n
     for seed, (lt, n, loose) in by_seed.items():
         c = "low(<0.2)" if lt < 0.2 else "high(>0.8)" if lt > 0.8 else "mid"
+        if per_lt[lt] >= 100000:
+            # enough independent tiles were requested with exactly this probability: a class of its own
+            c = "p=%r" % lt
+            classes.setdefault(c, [0.0, 0.0, 0, 0])
         a = classes[c]
         a[0] += n * lt
         a[1] += n * lt * (1 - lt)
